@@ -1231,7 +1231,7 @@ class Library(object):
         pure('posixpath.dirname', lambda I, a, k: mk(
             spec.dirname(I.ctx, z3str(a[0]))))
         pure('posixpath.join', lambda I, a, k: mk(
-            spec.join(*[z3str(x) for x in a])))
+            spec.join(*[z3str(x) for x in a], ctx=I.ctx)))
         pure('posixpath.normpath', lambda I, a, k: mk(
             spec.normpath(I.ctx, z3str(a[0]))))
         pure('posixpath.abspath', lambda I, a, k: mk(
